@@ -751,11 +751,17 @@ def _run_consist(case):
             fails.append(("D(P)-P", d))
         dW = None
         resid_DP = d
+        nan_rows_all_zero_residual = None
         if label != "plain":
             Wk = run.npy(mol.dP2dt2)
             if not np.all(np.isfinite(Wk)):
                 dW = float("nan")
-                fails.append(("krylov-update-not-finite", float(np.isnan(Wk).sum())))
+                # per batch row: is the update non-finite exactly in the rows whose residual D(P) - P is exactly 0.0 ?
+                rres = np.abs(np.asarray(out["dm"]) - D.numpy()).reshape(Wk.shape[0], -1).max(axis=1)
+                rnan = ~np.isfinite(Wk).reshape(Wk.shape[0], -1).all(axis=1)
+                nan_rows_all_zero_residual = bool(np.all(rres[rnan] == 0.0))
+                resid_DP = float(rres[rnan].max())
+                fails.append(("krylov-update-not-finite", float(rnan.sum())))
             else:
                 dW = float(np.abs(Wk).max())
                 if mg.upd("a_krylov_update_at_fixed_point", dW, 1e-6):
@@ -769,7 +775,7 @@ def _run_consist(case):
                 mech = "xl-force-differs-from-scf-at-converged-density"
             elif what == "krylov-update-not-finite":
                 # deterministic classifier: the residual handed to the Krylov normalisation was exactly zero
-                mech = "ksa-zero-residual-nan" if resid_DP == 0.0 else "ksa-update-not-finite"
+                mech = "ksa-zero-residual-nan" if nan_rows_all_zero_residual else "ksa-update-not-finite"
             else:
                 mech = "xl-density-not-stationary-at-converged-density"
             prev = [v for v in viol if v["clause"] == "consistency-" + what and v["mech"] == mech]
@@ -777,7 +783,8 @@ def _run_consist(case):
                 prev[0]["detail"]["also_in_variants"].append(label)
                 continue
             viol.append({"clause": "consistency-" + what, "mech": mech,
-                         "detail": {"variant": label, "also_in_variants": [], "value": val, "max|D(P)-P|": resid_DP,
+                         "detail": {"variant": label, "also_in_variants": [], "value": val,
+                                    "max|D(P)-P|_in_offending_rows": resid_DP,
                                     "method": method, "mols": case["mols"],
                                     "species": np.asarray(S).tolist(), "coords": np.asarray(C).tolist()}})
     del torch
